@@ -354,6 +354,12 @@ def k_cli(run, case):
     workload executor: own parsers, Horn alignment of every trajectory on its own registered
     pairs, export oracle).
     """
+    if case.get("tool") in ("ape", "rpe"):
+        # evo_ape / evo_rpe with -a / -s / --n_to_align in every admitted combination
+        from vmon.props import C01, C02
+        (C01.k_cli if case["tool"] == "ape" else C02.k_cli)(run, case)
+        run.hit("evo_ape / evo_rpe runs with alignment options judged")
+        return
     from vmon.props import C15
     C15.k_cli(run, case)
     run.hit("evo_traj runs with alignment to a reference judged")
@@ -383,7 +389,10 @@ def main(run):
     for i in run.mine({"quick": 60, "thorough": 1500}[run.tier]):
         k_cli(run, run.case("cli", i, force={"use_ref": True, "align": i % 3 != 2, "correct_scale": i % 3 != 0,
                                              "merge": False, "plane": False}))
-    run.need("evo_traj runs with alignment to a reference judged", "requested alignment reaches umeyama_alignment exactly once", "umeyama: proper rotation", "umeyama: optimal vs Horn",
+    for i in run.mine({"quick": 60, "thorough": 1500}[run.tier]):
+        k_cli(run, run.case("cli", 10**6 + i, tool=["ape", "rpe"][i % 2],
+                            force_options=[["n_to_align"], ["n_to_align", "scale_only"]][(i // 2) % 2]))
+    run.need("evo_ape / evo_rpe runs with alignment options judged", "evo_traj runs with alignment to a reference judged", "requested alignment reaches umeyama_alignment exactly once", "umeyama: proper rotation", "umeyama: optimal vs Horn",
              "umeyama: optimal vs perturbation", "noise-free: rotation reproduced",
              "equivariance: rotation", "exactly degenerate set refused",
              "umeyama: unequal shapes refused", "umeyama@align: optimal vs Horn",
